@@ -508,7 +508,7 @@ def run_stateful(pid, streams, workdir, wanted_substrings):
     return items, n
 
 
-def run_faults(cases, small, large, faults=None, timeout=30):
+def run_faults(cases, small, large, faults=None, timeout=30, _retry=True):
     """harness `faults`: (case id, size, fault, outcome name, outcome detail, same, text hash) per trial"""
     args = [os.path.join(BIN, "faults"), "--cases", cases, "--small", str(small), "--large", str(large), "--timeout", str(timeout)]
     if faults:
@@ -524,6 +524,13 @@ def run_faults(cases, small, large, faults=None, timeout=30):
         detail = "" if isinstance(outcome, str) or len(outcome) < 2 else sx(outcome[1])
         th = next((sx(x[1]) for x in t[6:] if isinstance(x, list) and x and x[0] == "text-hash"), None)
         trials.append((sx(t[1]), t[2], sx(t[3]), oc, detail, t[5], th))
+    # "no result within the timeout" on a loaded machine is not yet a hang: such trials are run once more, alone, with four times
+    # the timeout, and only a trial that still does not return is reported as one
+    if _retry and any(t[3] == "hang" for t in trials):
+        hung = sorted({t[2] for t in trials if t[3] == "hang"})
+        again, _ = run_faults(cases, small, large, hung, timeout * 4, _retry=False)
+        redo = {(t[0], t[2]): t for t in again}
+        trials = [redo.get((t[0], t[2]), t) if t[3] == "hang" else t for t in trials]
     return trials, r.stderr[-300:]
 
 
@@ -1086,6 +1093,11 @@ def extra_c01(pid, tier, seed, workdir, known, write_replay):
             if cid in naga_invalid:
                 counts["outside:naga-validator-rejects-the-module"] = counts.get("outside:naga-validator-rejects-the-module", 0) + 1
                 continue
+            if verdict == "unconfirmed":
+                # passed the first compile, but the confirmation rounds ran out (large thorough batches): errors of a later compiler
+                # phase may be hidden behind other modules' errors - the module is not judged (neither way)
+                counts["unconfirmed"] = counts.get("unconfirmed", 0) + 1
+                continue
             if verdict == "ok":
                 counts["ok"] = counts.get("ok", 0) + 1
                 modules[(cid, opt)] = ("ok", [])
@@ -1127,7 +1139,7 @@ def extra_c01(pid, tier, seed, workdir, known, write_replay):
             t = parse_sexp(line)[0]
             cid, opt, verdict = sx(t[1]), int(t[2]), t[3]
             nfm += 1
-            if verdict == "ok" or verdict[0] in ("permitted", "gen") or cid in naga_invalid:
+            if verdict in ("ok", "unconfirmed") or verdict[0] in ("permitted", "gen") or cid in naga_invalid:
                 continue
             what = sx(verdict[1])[:200] if verdict[0] == "syntax" else "; ".join(sx(e[1])[:80] for e in verdict[1:3])
             off = modules.get((cid, opt - 96))
